@@ -118,6 +118,17 @@ C09Requests ==
       v \in {"GET", "POST"}, ta \in HTypes, tb \in {<<"string", "">>, <<"integer", "">>}, ov \in Overrides,
       ca \in HCls, cb \in HCls, cc \in {"absent", "bad"}, sh \in {"others", "malformed"} }
 
+\* every published type / format of one required header x every value class incl. values that are
+\* not valid UTF-8 (concretised with the byte shape of a well-formed value of the format)
+HTypesAll == {<<"string", "">>, <<"string", "uuid">>, <<"string", "email">>, <<"string", "date-time">>, <<"string", "date">>, <<"string", "time">>,
+              <<"", "">>, <<"", "uuid">>, <<"", "email">>, <<"integer", "">>, <<"number", "">>, <<"boolean", "">>, <<"array", "">>}
+HClsAll == {"ok", "absent", "bad", "empty", "nonutf8"}
+C09TypeRequests ==
+  { Mk(Rpc(v, "string", Decl(ta, <<"string", "">>, "none")),
+       <<[lname |-> "x-a", cls |-> ca], [lname |-> "x-b", cls |-> cb], [lname |-> "x-c", cls |-> "absent"]>>,
+       GoodUrl, Body(sh, "json"), <<>>, OkHandler, NoHook) :
+      v \in {"GET", "POST"}, ta \in HTypesAll, ca \in HClsAll, cb \in {"ok", "nonutf8"}, sh \in {"others", "malformed"} }
+
 (***************************************************************************)
 (* C10: error source x content type x hook behaviour                       *)
 (***************************************************************************)
@@ -151,7 +162,7 @@ C11Requests ==
   { Mk(Rpc(v, "int32", <<>>), <<>>, GoodUrl, Body(sh, ct), <<>>, OkHandler, NoHook) :
       v \in Verbs, sh \in {"absent", "empty", "emptyobj", "others", "malformed"}, ct \in {"json", "proto", "octet", "none", "other"} }
 
-Requests == CASE Family = "C02" -> C02Requests \cup C02ShapeRequests [] Family = "C09" -> C09Requests
+Requests == CASE Family = "C02" -> C02Requests \cup C02ShapeRequests [] Family = "C09" -> C09Requests \cup C09TypeRequests
               [] Family = "C10" -> C10Requests [] Family = "C11" -> C11Requests
 
 Init == /\ pc = "idle" /\ req = (CHOOSE r \in Requests : TRUE) /\ bodyRead = FALSE /\ saw = NoSaw
